@@ -28,10 +28,10 @@ package core
 //@     (forall m *core.Node[model.File] :: m.owner != nil && m.link != nil ==>
 //@         toplevel(m.link) && m.link.linkOf == m && has(u.allStore.store, m.v.Key) && m.link.owner == &u.allStore.store[m.v.Key].l &&
 //@         m.link.v.Seq == m.v.Seq && m.link.v.Key == m.v.Key && m.link.v.TxId == m.v.TxId && m.link.v.ContentId == m.v.ContentId) &&
-//@     (forall m *core.Node[model.File] :: m.owner != nil && m.linkOf != nil ==> m.linkOf.link == m && m.linkOf.owner != nil)
+//@     (forall m *core.Node[model.File] :: m.owner != nil && m.linkOf != nil ==> m.linkOf.link == m)
 
 // every sequence number in any list has been drawn from the process-wide counter
-//@ pure func seqInv() bool = forall m *core.Node[model.File] :: m.owner != nil ==> 0 < m.v.Seq && m.v.Seq <= sequence.seq
+//@ pure func seqInv() bool = forall m *core.Node[model.File] :: m.owner != nil ==> 0 < m.v.Seq && m.v.Seq <= sequence.seq && !m.inPool
 
 //@ pure func ucInv(u *UseCase) bool =
 //@     u != nil && u.txPool != nil && u.fileRepo != nil &&
@@ -120,3 +120,37 @@ package core
 //@   exitassert neither: filter.TxId == nil && filter.BeforeSeq != nil ==> f == zero(model.File) && s == zero(model.File)
 //@   exitassert merge:  result1 == nil ==> result0 == ite(f.Seq > s.Seq, f, s)
 //@   exitassert miss:   result1 != nil <==> ite(f.Seq > s.Seq, f.Seq, s.Seq) == 0
+
+
+// ---- rollback: every version of the transaction is unlinked (from its own lists and from the
+// all-store) and returned for deletion; nothing else changes. ----
+//@ pure func linked(u *UseCase, n *core.Node[model.File]) bool =
+//@     n.link != nil && toplevel(n.link) && n.link.linkOf == n && has(u.allStore.store, n.v.Key) && n.link.owner == &u.allStore.store[n.v.Key].l
+
+//@ func (*UseCase).DeleteTx
+//@   requires inv:    ucInv(u)
+//@   modifies model.File.*, core.Node[model.File].next, core.Node[model.File].prev, core.Node[model.File].link, core.Node[model.File].linkOf, core.Node[model.File].owner, core.Node[model.File].idx,
+//@            core.List[model.File].elems, core.List[model.File].base, core.file.arr, core.file.withoutSearch, core.file.gtx, mem[*core.Node[model.File]], mem[*core.file],
+//@            core.Transaction.gid, map[string]*core.file, map[string]*core.Transaction
+//@   ensures  inv:    ucInv(u)
+//@   ensures  gone:   !has(u.txStore.store, txId)
+//@   ensures  regs:   forall id string :: id != txId ==> has(u.txStore.store, id) == old(has(u.txStore.store, id)) && (has(u.txStore.store, id) ==> u.txStore.store[id] == old(u.txStore.store[id]))
+//@   ensures  noop:   !old(has(u.txStore.store, txId)) ==> len(result) == 0 && forall l *core.List[model.File] :: l.elems == old(l.elems)
+//@   ensures  others: forall g *core.file :: old(g.gtx) != nil && old(g.gtx) != &u.allStore && (!old(has(u.txStore.store, txId)) || old(g.gtx) != old(u.txStore.store[txId])) ==> g.l.elems == old(g.l.elems)
+//@ loop (*UseCase).DeleteTx#1
+//@   invariant inv:       ucInv(u) && tx != nil && toplevel(tx) && txInv(tx) && !tx.WithoutSearch && tx.store == $range
+//@   invariant detached:  !has(u.txStore.store, txId) && forall id string :: has(u.txStore.store, id) ==> u.txStore.store[id] != tx
+//@   invariant regs:      forall id string :: id != txId ==> has(u.txStore.store, id) == old(has(u.txStore.store, id)) && (has(u.txStore.store, id) ==> u.txStore.store[id] == old(u.txStore.store[id]))
+//@   invariant emptied:   forall k string :: seen(k) ==> has(tx.store, k) && len(tx.store[k].l.elems) == 0
+//@   invariant pending:   forall k string :: has(tx.store, k) && !seen(k) ==> forall i int :: 0 <= i && i < len(tx.store[k].l.elems) ==> linked(u, tx.store[k].l.elems[i])
+//@   invariant others:    forall g *core.file :: old(g.gtx) != nil && old(g.gtx) != &u.allStore && old(g.gtx) != tx ==> g.l.elems == old(g.l.elems)
+//@ loop (*UseCase).DeleteTx#2
+//@   invariant inv:       ucInv(u) && tx != nil && toplevel(tx) && txInv(tx) && !tx.WithoutSearch && tx.store == $range
+//@   invariant detached:  !has(u.txStore.store, txId) && forall id string :: has(u.txStore.store, id) ==> u.txStore.store[id] != tx
+//@   invariant regs:      forall id string :: id != txId ==> has(u.txStore.store, id) == old(has(u.txStore.store, id)) && (has(u.txStore.store, id) ==> u.txStore.store[id] == old(u.txStore.store[id]))
+//@   invariant cur:       f != nil && has(tx.store, f.gkey) && tx.store[f.gkey] == f && seen(f.gkey)
+//@   invariant emptied:   forall k string :: seen(k) && k != f.gkey ==> has(tx.store, k) && len(tx.store[k].l.elems) == 0
+//@   invariant pending:   forall k string :: has(tx.store, k) && (!seen(k) || k == f.gkey) ==> forall i int :: 0 <= i && i < len(tx.store[k].l.elems) ==> linked(u, tx.store[k].l.elems[i])
+//@   invariant node:      n != nil ==> toplevel(n) && n.owner == nil && linked(u, n)
+//@   invariant done:      n == nil ==> len(f.l.elems) == 0
+//@   invariant others:    forall g *core.file :: old(g.gtx) != nil && old(g.gtx) != &u.allStore && old(g.gtx) != tx ==> g.l.elems == old(g.l.elems)
